@@ -136,6 +136,14 @@ You can provide input either as a file (as the first argument) or by piping logs
 				os.Exit(1)
 			}
 
+			// Validation: the Atlas key pair must be known before any file is created
+			if atlasParamsSet {
+				if (atlasPublicKey == "" && os.Getenv("ATLAS_PUBLIC_KEY") == "") || (atlasPrivateKey == "" && os.Getenv("ATLAS_PRIVATE_KEY") == "") {
+					fmt.Fprintln(os.Stderr, "Error: Atlas public/private key not set. Please provide --atlasPublicKey and --atlasPrivateKey or set ATLAS_PUBLIC_KEY and ATLAS_PRIVATE_KEY environment variables.")
+					os.Exit(1)
+				}
+			}
+
 			SetRedactedString(replacement)
 			SetRedactNumbers(redactNumbers)
 			SetRedactIPs(redactIPs)
